@@ -110,6 +110,15 @@ class SimulationScenario():
         for key in self.model.memo.keys():
             self.model.memo[key] = {}
         self.sd_simulation = None
+        # settings passed with run_step live for the session only: bring back the equations and points
+        # the model had when the session's simulation was set up
+        pre_session = getattr(self, "_pre_session", None)
+        if pre_session is not None:
+            self.model.equations.clear()
+            self.model.equations.update(pre_session[0])
+            self.model.points.clear()
+            self.model.points.update(pre_session[1])
+            self._pre_session = None
 
     def setup_constants(self):
         """
